@@ -6,7 +6,8 @@
    Tcp::close_stream_half, Tcp::reset_stream, Tcp::assign_send_seq),
    net/udp.rs (impl Drop for UdpSocket, MulticastGroups::leave_all),
    net/tcp/listener.rs (impl Drop for TcpListener),
-   net/tcp/stream.rs (impl Drop for ReadHalf, impl Drop for WriteHalf).
+   net/tcp/stream.rs (impl Drop for ReadHalf, impl Drop for WriteHalf,
+   impl Drop for ConnectGuard).
 
      tables.udp      = Host.udp.binds                (keys: ports)
      tables.tcp      = Host.tcp.binds                (port, queued (Syn, origin) deque;
@@ -40,7 +41,9 @@ Inductive sock :=
 | SUdp (port : N)                           (* UdpSocket *)
 | SListener (port : N)                      (* TcpListener *)
 | SRead (p : pair) (unread closed : bool)   (* ReadHalf: has unread data / FIN already received *)
-| SWrite (p : pair) (shut : bool).          (* WriteHalf: FIN already sent *)
+| SWrite (p : pair) (shut : bool)           (* WriteHalf: FIN already sent *)
+| SConnGuard (p : pair).                    (* ConnectGuard of a connect() still waiting for its SYN-ACK:
+                                               the entry is registered (ref_ct 2), no TcpStream exists yet *)
 
 Inductive msg :=
 | MFin (from : N) (p : pair)                (* Segment::Fin to (rhost p, rport p) *)
@@ -104,6 +107,7 @@ Definition drop_sock (t : tables) (o : sock) : tables * list msg :=
                  | None => []
                  end in
       (set_streams t (close_half p (streams t)), fin)
+  | SConnGuard p => (set_streams t (remove_stream p (streams t)), [])         (* reset_stream, nothing sent *)
   end.
 
 Fixpoint drop_all (t : tables) (objs : list sock) : tables * list msg :=
